@@ -492,6 +492,11 @@ class IdTokStream(Stream):
                         ra = "err: " + str(e)[:60]
                 res["rel_abs"] = ra
                 res["eq"] = (T == T.duplicate() and hash(T) == hash(T.duplicate()) and not (T != T.duplicate()))
+                # tokens that differ in one regular field are different
+                for k in ('user', 'workflow', 'cycle', 'task', 'job'):
+                    other = T.duplicate(**{k: (T[k] or '') + '9'})
+                    if other == T or not (other != T) or T == other:
+                        res["eq"] = False
             except Exception as e:  # noqa
                 res["exc"] = f"{type(e).__name__}: {e}"[:200]
             out.append(res)
@@ -552,8 +557,25 @@ class IdTokStream(Stream):
 STREAMS = [IdStrStream(), IdTokStream()]
 
 META = {
-    "level_text": "see below",
-    "level_note": "",
-    "technique": "",
+    "level_text": ("Coq theorems over Model/Id.v for ALL valid tokens (each field any string over its character class, "
+                   "non-empty, no white space at the edges; cycles without ':'; jobs 'NN' or ASCII digits), all four "
+                   "(selectors, relative) combinations and arbitrary str.isspace / \\d classes satisfying three stated "
+                   "hypotheses (proved for the running CPython's tables): tokenise(detokenise(t)) = canon t (gaps become "
+                   "'*', job zero padded, selectors kept only on request and down to the lowest token); valid tokens always "
+                   "format; a canonical string parses and formats back to itself; Tokens.task of the parsed full id equals "
+                   "the parse of the relative id; legacy task.cycle and cycle/task (cycle >= 2 characters) ids are recognised, "
+                   "upgraded to //cycle/task[:sel] and the new id parses to the same tokens. The parsers are compared with "
+                   "the real tokenise / legacy_tokenise / upgrade_legacy_ids / detokenise inside Coq on dense generated "
+                   "strings and token sets; the oracle checks the round trips, Tokens.__eq__/__hash__/duplicate and the "
+                   "relative/absolute agreement directly on the implementation."),
+    "level_note": ("Partial: the cycle/task legacy form with a ONE-character cycle ('1/foo') is refuted "
+                   "(c23_legacy_slash_one_char_refuted; known finding with a one-character proposed fix). Regex backtracking "
+                   "is not modelled generically: Model/Id.v is a hand transcription validated per pattern by correspondence "
+                   "(thorough: every string of length <= 6 over {a 1 / : ~ .}). 'Canonical string' is defined as the image "
+                   "of detokenise on valid tokens. Jobs that int() accepts but that are not ASCII digit strings ('+4', "
+                   "unicode digits) are outside the model (oracle only). Observed: the cycle class admits ':' through "
+                   "backtracking ('//1:a:b' -> cycle '1:a'), such tokens do not round-trip without selectors; id_cli.cli_tokenise "
+                   "exists because of this."),
+    "technique": "Coq proof (parser/printer round trip by structural lemmas on span/app) + in-Coq differential correspondence + direct round-trip oracle",
     "design_ref": "5/C23",
 }
